@@ -165,7 +165,7 @@ theorem step_authOnly {c : Cfg} {s s' : State} {e : Env}
 
 theorem start_authOnly (c : Cfg) : (start c).phase ≠ .ready → AuthOnly (start c).log := by
   unfold start
-  split <;> simp [AuthOnly, Wire.isAuth]
+  split <;> (try split) <;> simp [AuthOnly, Wire.isAuth]
 
 /-- At every moment of every run — i.e. for every prefix `pre` of every script the model accepts —
 as long as the client has not reached `ready` (it has not yet seen a positive answer that completed
@@ -253,7 +253,7 @@ theorem hist_step {c : Cfg} {hist : List Env} {s s' : State} {e : Env}
 
 theorem hist_start (c : Cfg) : Hist c [] (start c) := by
   unfold start
-  constructor <;> split <;> simp_all
+  constructor <;> split <;> (try split) <;> simp_all
 
 theorem hist_run (c : Cfg) : ∀ (es hist : List Env) (s s' : State),
     Hist c hist s → runFrom c s es = some s' → Hist c (hist ++ es) s' := by
@@ -405,14 +405,15 @@ theorem only_auth_before_broker_verdict (c : Cfg) (hs : c.sasl = true) (es : Lis
     orderHolds (s.log.map seenOf) = true := by
   have h0 : Mon c false (start c) := by
     unfold start
-    constructor <;> split <;> simp_all [orderHolds, seenOf, Seen.allowedBeforeVerdict, AuthOnly, Wire.isAuth]
+    constructor <;> split <;> (try split) <;>
+      simp_all [orderHolds, seenOf, Seen.allowedBeforeVerdict, AuthOnly, Wire.isAuth]
   obtain ⟨_, hm⟩ := mon_run hs es false (start c) s h0 hsound h
   exact hm.order
 
 /-- the hypothesis cannot be dropped: a mechanism that declares itself complete on a non-final answer
 lets a normal request out before the broker's verdict -/
 theorem unsound_mechanism_counterexample :
-    let c : Cfg := ⟨.dialer, true⟩
+    let c : Cfg := { path := .dialer, sasl := true }
     let es : List Env := [.versions 0 (some (0, 1)), .reply 0 [] false, .mechStart (some [1]),
                           .reply 0 [2] false, .mechNext (some (true, [])), .use 3]
     (run c es).map (fun s => orderHolds (s.log.map seenOf)) = some false := by decide
@@ -432,11 +433,12 @@ theorem plain_format_extracted (user pass : Bytes) :
 theorem plain_next_extracted : Gen.plainNextCompleted = (plainNext []).1 := by decide
 
 /-- the order of the authentication-relevant calls in the four functions the model follows, as
-re-extracted on this run: dial → wrap → authenticate → (close on error); handshake → Start →
+re-extracted on this run: dial → wrap → (close if host/port cannot be computed, fix d0aad9c) →
+authenticate → (close on error); handshake → Start →
 authenticate → Next; Transport: dial → (deferred close) → ApiVersions round trip → versions →
 authenticate → only then the connection's `run` loop is started. -/
 theorem call_order_extracted :
-    Gen.dialerConnectCalls = ["dialContext", "NewConnWith", "authenticateSASL", "Close"] ∧
+    Gen.dialerConnectCalls = ["dialContext", "NewConnWith", "Close", "authenticateSASL", "Close"] ∧
     Gen.dialerAuthCalls = ["saslHandshake", "Start", "saslAuthenticate", "Next"] ∧
     Gen.transportConnectCalls = ["dial", "Close", "RoundTrip", "SetVersions", "authenticateSASL", "run"] ∧
     Gen.transportAuthCalls = ["saslHandshakeRoundTrip", "Start", "saslAuthenticateRoundTrip", "Next"] := by
@@ -468,7 +470,7 @@ theorem plain_nul_counterexample : parsePlain (plainStart [97, 0, 98] [99]) = no
 script is taken, the mechanism is sound, the connection is handed out, and the journal is exactly
 ApiVersions, SaslHandshake, one token carrying the RFC 4616 message, verdict, then the application's
 requests. -/
-theorem plain_accepts (c : Cfg) (hs : c.sasl = true) (hsv : Option (Int × Int)) (v : Nat)
+theorem plain_accepts (c : Cfg) (hs : c.sasl = true) (ha : c.addrOk = true) (hsv : Option (Int × Int)) (v : Nat)
     (hv : (match c.path with | .dialer => negotiateConn hsv | .transport => some (selectTransport hsv)) = some v)
     (user pass d mechs : Bytes) (k : Nat) :
     let es := [Env.versions 0 hsv, .reply 0 mechs false] ++ plainEvents user pass (.reply 0 d true) ++ [.use k]
@@ -476,18 +478,26 @@ theorem plain_accepts (c : Cfg) (hs : c.sasl = true) (hsv : Option (Int × Int))
     run c es = some { phase := .ready, closed := false, result := none,
                       log := [.wrote .apiVersions, .wrote (.saslHandshake v),
                               .wrote (authWire v (plainMessage [] user pass)), .verdict, .wrote (.other k)] } := by
-  obtain ⟨path, sasl⟩ := c
-  simp at hs; subst hs
+  obtain ⟨path, sasl, addrOk⟩ := c
+  simp at hs ha; subst hs; subst ha
   cases path <;> simp at hv <;>
     simp [run, runFrom, start, step, react, hv, plainEvents, plainNext, State.apply, mechSound, isDone, isFinalOk,
           plain_format]
 
-example : run ⟨.transport, true⟩ [.versions 0 (some (0, 1)), .reply 33 [] false] =
+example : run { path := .transport, sasl := true } [.versions 0 (some (0, 1)), .reply 33 [] false] =
     some { phase := .failed, closed := true, result := some (.kafka 33),
            log := [.wrote .apiVersions, .wrote (.saslHandshake 1)] } := by decide
 
-example : run ⟨.dialer, true⟩ [.versions 0 (some (0, 0)), .reply 0 [] false, .mechStart (some [7]), .eof] =
+example : run { path := .dialer, sasl := true } [.versions 0 (some (0, 0)), .reply 0 [] false, .mechStart (some [7]), .eof] =
     some { phase := .failed, closed := true, result := some (.kafka 58),
            log := [.wrote .apiVersions, .wrote (.saslHandshake 0), .wrote (.rawToken [7])] } := by decide
+
+/-- an address whose port is not a number (`splitHostPortNumber` fails inside the SASL branch): the dial
+fails, the freshly opened connection is closed, and a Dialer has written nothing at all -/
+example : run { path := .dialer, sasl := true, addrOk := false } [] =
+    some { phase := .failed, closed := true, result := some .other, log := [] } := by decide
+
+example : run { path := .transport, sasl := true, addrOk := false } [.versions 0 none] =
+    some { phase := .failed, closed := true, result := some .other, log := [.wrote .apiVersions] } := by decide
 
 end KV.C18
